@@ -504,6 +504,14 @@ impl<A: Send + 'static> Stream<A> {
             );
             node.add_update_dependencies(vec![self.to_dep()]);
             node.add_update_dependencies(f_deps);
+            // A stream that was already visited in the current transaction will not push its
+            // dependents again: have the propagation of that transaction visit the new node, so
+            // that a listener registered by a handler is told this transaction's event too.
+            if self.node().data.visited.load(Ordering::SeqCst) {
+                self.sodium_ctx().with_data(|data: &mut SodiumCtxData| {
+                    data.changed_nodes.push(node.box_clone());
+                });
+            }
             Listener::new(&self.sodium_ctx(), weak, node, alive)
         })
     }
